@@ -306,11 +306,20 @@ def check_per_cluster(run, rng):
         for scal in (np.ones(d), 10.0 ** np.linspace(-4, 4, d) if d > 1 else np.array([1e-4]), 10.0 ** np.linspace(6, -6, d) if d > 1 else np.array([1e6])):
             np.random.seed(t)
             try:
-                ms2 = ModeStatistics.from_particles(u * scal, w, labels, dof_fallback=7.0)
+                shift = (0.0, 3.0, -2.0)[t % 3]            # the modes follow the data wherever it lies, also outside the unit cube
+                ms2 = ModeStatistics.from_particles(u * scal + shift, w, labels, dof_fallback=7.0)
             except Exception as e:
                 run.fail("from-particles-raises", f"{type(e).__name__}: {e} for coordinates scaled by {scal.tolist()}", K=K, d=d, data_seed=t)
                 break
             for k in range(K):
+                pts_k = (u * scal + shift)[np.asarray(labels) == k]
+                if len(pts_k):
+                    lo_k, hi_k = pts_k.min(axis=0), pts_k.max(axis=0)
+                    slack_k = 1e-9 * (np.abs(lo_k) + np.abs(hi_k) + (hi_k - lo_k))
+                    if np.any(ms2.means[k] < lo_k - slack_k) or np.any(ms2.means[k] > hi_k + slack_k):
+                        run.fail("location-outside-bounding-box", f"mode {k}: location {ms2.means[k].tolist()} outside the bounding box [{lo_k.tolist()}, {hi_k.tolist()}] of its cluster "
+                                 f"(coordinates scaled by {scal.tolist()}, shifted by {shift})", K=K, d=d, data_seed=t)
+                        break
                 Lk = np.asarray(ms2.chol_covariances[k])
                 sdk = np.sqrt(np.diag(ms2.covariances[k]))
                 if not np.allclose(Lk, np.tril(Lk)) or not np.allclose((Lk @ Lk.T) / np.outer(sdk, sdk), ms2.covariances[k] / np.outer(sdk, sdk), atol=1e-8):
